@@ -178,8 +178,8 @@ def between(NU, RM, IM):
 
 @spec
 def rows_names(RES, IM, i):
-    return forall(lambda x: implies(1 <= x and x < i,
-                                    RES[x][1] == ite(x in IM, IM[x].one_letter_name, "?")))
+    return (forall(lambda x: implies(1 <= x and x < i and x in IM, RES[x][1] == IM[x].one_letter_name))
+            and forall(lambda x: implies(1 <= x and x < i and not (x in IM), RES[x][1] == "?")))
 
 
 @spec
@@ -220,7 +220,8 @@ def pairing_keeps(RES, IM, P, c):
     """every one of the first c entries whose residues are both numbered is present"""
     return forall(lambda a, x, y: implies(0 <= a and a < c and x in IM and y in IM
                                           and IM[x] == P[a].nt1_3d and IM[y] == P[a].nt2_3d,
-                                          RES[x][2] == y and RES[y][2] == x))
+                                          RES[x][2] == y and RES[y][2] == x),
+                  pats=[["ident(IM[x])", "ident(IM[y])", "ident(P[a].nt1_3d)"]])
 
 
 # ------------------------------------------------------------------------------------------------ callee contract
@@ -316,6 +317,10 @@ class generate_bpseq:
                 f"assert filtered(nucleotides, SRC, {_R})",
                 "assert forall(lambda a, b: implies(0 <= a and a < b and b < len(nucleotides), nucleotides[a] != nucleotides[b]))"]},
         {"when": "before", "at": "for k in range(", "label": "gap-start", "do": ["let i0 = i"]},
+        {"when": "before", "at": "result[j][2] = k", "label": "both-free",
+         "do": ["assert j in index_to_residue_map and k in index_to_residue_map and index_to_residue_map[j] == base_pair.nt1_3d"
+                " and index_to_residue_map[k] == base_pair.nt2_3d and j != k and 1 <= j and j < i and 1 <= k and k < i",
+                "assert result[j][2] == 0 and result[k][2] == 0"]},
         {"when": "before", "at": "return (BpSeq(", "label": "between",
          "do": ["assert between(nucleotides, residue_map, index_to_residue_map)"]},
     ]
@@ -400,7 +405,8 @@ def keys_ok(D):
 def matches_has(MT, C, c):
     """the first c pairs are registered under both of their residues"""
     return forall(lambda b: implies(0 <= b and b < c,
-                                    C[b].nt1_3d in MT and C[b] in MT[C[b].nt1_3d] and C[b].nt2_3d in MT and C[b] in MT[C[b].nt2_3d]))
+                                    C[b].nt1_3d in MT and C[b] in MT[C[b].nt1_3d] and C[b].nt2_3d in MT and C[b] in MT[C[b].nt2_3d]),
+                  pats=["ident(C[b].nt1_3d)", "ident(C[b].nt2_3d)"])
 
 
 @spec
